@@ -257,7 +257,11 @@ def main(argv=None):
 
     # ---- evidence
     ev = build_evidence(prop, tier, seed, meta, d, dsum, ctx, violations, time.time() - t0)
-    common.write_evidence(prop, ev)
+    if a.no_b or a.no_d:
+        # a development run of one tier only: the evidence file describes complete runs of the registered command and is left alone
+        print(f"NOTE partial run (--no-b / --no-d): evidence/{prop}.json not rewritten")
+    else:
+        common.write_evidence(prop, ev)
     for ln in lines:
         print(ln)
     nd = f"D {dsum['discharged']}/{dsum['obligations']} obligations discharged, {len(dsum['undecided'])} undecided; " if dsum else ""
